@@ -246,7 +246,7 @@ def main(argv=None):
 
     known = load_known()
     open_findings = [f for f in known.get("open", []) if f["property"] == pid]
-    known_sigs = [f["sig"] for f in open_findings]
+    known_sigs = [f["sig"] for f in open_findings] if not os.environ.get("BV_IGNORE_KNOWN") else []
     ctxm = mp.get_context("fork")
 
     # ---- single replay -------------------------------------------------------------------
